@@ -91,6 +91,9 @@ def main() -> None:
         core.analyze_calltree = _wrapped
         mod = importlib.import_module(module)
         fn = getattr(mod, func)
+        prepare = getattr(mod, f"PREPARE_{func}", None)
+        if prepare is not None:  # native set-up that must not run under the tracer (e.g. a real mypy build of a fixed corpus)
+            prepare()
         stats: collections.Counter = collections.Counter()
         opts = AnalysisOptionSet(
             per_condition_timeout=timeout,
@@ -102,7 +105,8 @@ def main() -> None:
         checkables = analyze_function(fn, opts)
         msgs = run_checkables(checkables)
         states = [m.state for m in msgs]
-        out["messages"] = [{"state": m.state.name, "message": m.message, "line": m.line} for m in msgs]
+        out["messages"] = [{"state": m.state.name, "message": m.message, "line": m.line,
+                            **({"traceback": (getattr(m, "traceback", "") or "")[-1500:]} if m.state.name == "EXEC_ERR" else {})} for m in msgs]
         out["paths"] = int(stats.get("num_paths", 0))
         out["confirmed_paths"] = sum(c.num_confirmed_paths for c in captured)
         hs = sys.modules.get("vlib.hsupport")
